@@ -20,10 +20,12 @@ import json
 import os
 import re
 import shutil
+import sys
 from concurrent.futures import ThreadPoolExecutor
 from fractions import Fraction
 
 import lib
+import c17keys
 from lib import cZ, cN, clist
 
 REQ = ("From Coq Require Import ZArith QArith List.\nImport ListNotations.\n"
@@ -31,6 +33,7 @@ REQ = ("From Coq Require Import ZArith QArith List.\nImport ListNotations.\n"
 
 SEV_COQ = {"info": "SevInfo", "warning": "SevWarning", "critical": "SevCritical"}
 SEV_OF_COQ = {v: k for k, v in SEV_COQ.items()}
+SEV_COQ["bogus"] = "SevOther"      # a --min-severity value that is no severity: outside the property's domain, model tie only
 SEV_LEVEL = {"info": 1, "warning": 2, "critical": 3}
 
 
@@ -340,8 +343,11 @@ def place_configs(cmd, where, dirs, states):
                 f.write("[project]\nname = \"x\"\n\n" + disc_toml(cmd, v, "tool.pyscn."))
             ids[v] = (where, lvl, "pyproject")
         if st in ("plain", "pyscn+plain"):
+            # a pyproject.toml that is not pyscn's: another tool's table, no [tool] table at all, or not even TOML
+            texts = ["[project]\nname = \"x\"\n\n[tool.other]\nmin_cbo = 77\n", "[project]\nname = \"x\"\n\n[build-system]\nrequires = []\n",
+                     "[project\nname = x\n[tool.pyscn.cbo]\nmin_cbo = 78\n"]
             with open(os.path.join(dd, "pyproject.toml"), "w") as f:
-                f.write("[project]\nname = \"x\"\n\n[tool.other]\nmin_cbo = 77\n")
+                f.write(texts[(lvl + len(dirs) + len(where)) % 3])
     return ids
 
 
@@ -556,7 +562,23 @@ def init_differential(ck, root):
                     diffs.append("%s: %s vs %s" % (k, str(a.get(k))[:200], str(b.get(k))[:200]))
         if (rcc0, lines0) != (rcc1, lines1):
             diffs.append("check: exit %s lines %s vs exit %s lines %s" % (rcc0, lines0[:6], rcc1, lines1[:6]))
-        res.append(dict(name=name, init_rc=rci, file_written=made, same=same, diffs=diffs))
+        r = dict(name=name, init_rc=rci, file_written=made, same=same, diffs=diffs)
+        if name == "plain" and made:
+            # an existing file is kept unless --force is given; --config names another place (directories are created)
+            cp = os.path.join(d, ".pyscn.toml")
+            generated = open(cp).read()
+            with open(cp, "w") as f:
+                f.write("# edited by hand\n[complexity]\nmax_complexity = 31\n")
+            rc2, _, err2 = lib.pyscn(["init"], d)
+            kept = open(cp).read().startswith("# edited by hand")
+            rc3, _, _ = lib.pyscn(["init", "--force"], d)
+            forced = open(cp).read()
+            rc4, _, _ = lib.pyscn(["init", "--config", os.path.join("conf", "deep", "custom.toml")], d)
+            cp4 = os.path.join(d, "conf", "deep", "custom.toml")
+            custom = open(cp4).read() if os.path.exists(cp4) else None
+            r["init_again"] = dict(second_exit=rc2, existing_file_kept=kept, second_message=err2.strip()[-160:], force_exit=rc3,
+                                   force_restores_generated=(forced == generated), custom_exit=rc4, custom_same_text=(custom == generated))
+        res.append(r)
         shutil.rmtree(os.path.dirname(d), ignore_errors=True)
     return res
 
@@ -622,6 +644,10 @@ def main(tier):
     if not (len(sims) == 3 and sims[0] < 0.84 and sims[1] < 0.84 and 0.86 < sims[2] < 0.985 and sims[0] > 0.66):
         ck.notes.append("generator: clone similarities %s are not in the bands the thresholds assume" % sims)
 
+    # ---- (D) keys without a flag: started now, the runs overlap parts (A)-(C) -----------------------
+    sweep = c17keys.KeySweep(ck, sys.modules[__name__], root, thorough)
+    sweep.start()
+
     # ---- (A) option matrix -------------------------------------------------------------------------
     ocases = []
     for opt in OPTIONS:
@@ -631,6 +657,8 @@ def main(tier):
         if opt.name == "check_max_complexity":
             kvals += [0, -3]
             fvals += [opt.others[2]]
+        if opt.name == "analyze_min_severity":
+            fvals += ["bogus"]
         if thorough:
             fvals += [v for v in opt.others[2:] if v not in fvals] if opt.flag else []
             kvals += [v for v in opt.others[2:] if v not in kvals]
@@ -651,6 +679,14 @@ def main(tier):
     # ---- (C) init --------------------------------------------------------------------------------
     init_res = init_differential(ck, root)
 
+    # ---- (D) keys without a flag: the runs finish here, they were started before part (A) ----------
+    kstats = {}
+    try:
+        sweep.wait()
+    except Exception as e:
+        ck.broken_ties.append("key sweep failed: %s" % str(e)[-800:])
+        sweep = None
+
     # ---- model and spec in Coq -------------------------------------------------------------------
     omodel = dmodel = defaults = None
     if not any(f in ("Cli/Config.v", "Cli/ConfigRun.v", "Cli/Discovery.v", "Cli/Gate.v") or f.startswith("Gen/") for f in getattr(ck, "failed_files", [])):
@@ -664,6 +700,8 @@ def main(tier):
                 items = [coq_discovery(c) for c in dcases[off:off + shard]]
                 jobs.append(("C17_disc_%d" % off, REQ, "Eval vm_compute in %s.\n" % clist(items)))
             jobs.append(("C17_defaults", REQ, "Eval vm_compute in defaults_table.\n"))
+            if sweep is not None:
+                jobs.append(sweep.coq_job())
             outs = lib.coq_eval_many(jobs, workers=8)
             omodel, dmodel = [], []
             k = 0
@@ -674,6 +712,8 @@ def main(tier):
                 dmodel += lib.parse_coq_values(outs[k])[0]
                 k += 1
             defaults = lib.parse_coq_values(outs[k])[0]
+            if sweep is not None:
+                kstats = sweep.decide(outs[k + 1])
         except Exception as e:
             ck.broken_ties.append("model evaluation failed: %s" % str(e)[-1200:])
             omodel = dmodel = None
@@ -689,7 +729,7 @@ def main(tier):
             return Fraction(v[1], v[2])
         return v
 
-    n_spec_bad = n_tie_bad = n_known = n_items_bad = 0
+    n_spec_bad = n_tie_bad = n_known = n_items_bad = n_out_of_domain = 0
     seen = set()
     cells = {}
     # ---- decide (A) ------------------------------------------------------------------------------
@@ -709,9 +749,16 @@ def main(tier):
         mval = None
         if omodel is not None:
             mval, sval_coq = pyval(opt, omodel[idx][0]), pyval(opt, omodel[idx][1])
-            if sval_coq != sval:
+            if sval_coq != sval and not (opt.kind == "sev" and fl is not None and fl not in SEV_LEVEL):
                 ck.broken_ties.append("eff (Coq) = %s but the property text read in Python gives %s for %s flag=%s file=%s" % (sval_coq, sval, opt.name, fl, kv))
         replay["model"], replay["spec"] = str(mval), str(sval)
+        if opt.kind == "sev" and fl is not None and fl not in SEV_LEVEL:
+            # not a severity: the property says nothing; the implementation must still do what the model of the code says
+            n_out_of_domain += 1
+            if mval is not None and (echo != mval or items != expected_items(opt, mval, base)):
+                n_tie_bad += 1
+                ck.broken_ties.append("%s flag=%s file=%s: pyscn uses %s (items %s), model Cli/Config.v says %s" % (opt.name, fl, kv, echo, items, mval))
+            continue
         # the property's domain for check --max-complexity: file values <= 0 are the documented "no limit"/unset marker
         spec_value = sval
         if opt.name == "check_max_complexity" and kv is not None and kv <= 0:
@@ -800,6 +847,14 @@ def main(tier):
         if r["init_rc"] != 0 or not r["file_written"]:
             ck.violation("pyscn init did not write .pyscn.toml (exit %s)" % r["init_rc"], replay)
             continue
+        ia = r.get("init_again")
+        if ia:
+            if ia["second_exit"] == 0 or not ia["existing_file_kept"]:
+                n_spec_bad += 1
+                ck.violation("pyscn init on an existing .pyscn.toml without --force: exit %s, file kept: %s" % (ia["second_exit"], ia["existing_file_kept"]), replay)
+            if ia["force_exit"] != 0 or not ia["force_restores_generated"] or ia["custom_exit"] != 0 or not ia["custom_same_text"]:
+                n_spec_bad += 1
+                ck.violation("pyscn init --force / --config <path> does not write the generated default file: %s" % ia, replay)
         if not r["same"]:
             tags = {"part": "init", "project": r["name"]}
             e = ck.match_known(tags)
@@ -822,8 +877,8 @@ def main(tier):
                    for (o, fl, kv, st), im in list(zip(ocases, oimpl))[:: max(1, len(ocases) // 5)]][:5] +
                   [{"discovery": c, "echo": im["got"], "argv": im["argv"]} for c, im in list(zip(dcases, dimpl))[:: max(1, len(dcases) // 3)]][:3])
     ck.cov.update({
-        "evaluations": len(ocases) + len(dcases) + 4 * len(init_res) + 1,
-        "distinct_nontrivial": len(seen),
+        "evaluations": len(ocases) + len(dcases) + 4 * len(init_res) + 1 + kstats.get("key_cases", 0) + 3,
+        "distinct_nontrivial": len(seen) + kstats.get("key_cases", 0),
         "rule": "one evaluation = one run of the real pyscn binary (analyze --json / check) on a generated project + config layout; the effective "
                 "value is read from the report's config echo (check: the printed limit) and from the surviving items, and compared with eff / "
                 "spec_resolve and with the Coq model; distinct = distinct (option, flag value, file value, file style) or discovery layout",
@@ -832,8 +887,9 @@ def main(tier):
                                "discovery_cwd_elsewhere": sum(1 for c in dcases if c["cwd"] is not None),
                                "discovery_target_is_file": sum(1 for c in dcases if c["target_file"]),
                                "discovery_explicit": sum(1 for c in dcases if c["explicit"] is not None),
-                               "init_projects": len(init_res)},
-        "disagreements_checked": n_spec_bad + n_tie_bad + n_known + n_items_bad,
+                               "init_projects": len(init_res), "flag_values_outside_the_domain": n_out_of_domain,
+                               "file_only_keys": kstats},
+        "disagreements_checked": n_spec_bad + n_tie_bad + n_known + n_items_bad + kstats.get("spec_bad", 0) + kstats.get("tie_bad", 0) + kstats.get("known", 0),
         "spec_disagreements": n_spec_bad, "model_disagreements": n_tie_bad, "known_finding_cases": n_known,
         "init_differential": [{k: r[k] for k in ("name", "same", "diffs")} for r in init_res],
     })
@@ -842,6 +898,9 @@ def main(tier):
                    "sentinels, key-present tests, file-side defaults, discovery order read off the Go AST)",
                    "hand-written models Cli/Config.v (per-option merge chain) and Cli/Discovery.v (ResolveConfigPath / FindConfigFileFromPath); cobra/pflag "
                    "parsing and go-toml are modelled only as 'flag given / key present'; the file system as a chain of directories",
+                   "hand-written generic model Cli/ConfigKeys.v of the keys without a flag (presence test, validation range, whether the value reaches "
+                   "the request; per-key classification in harness/c17keys.py read off pyproject_loader.go / *_config_loader.go / clone_usecase.go), "
+                   "bound to the code by one run of the real binary per key and value",
                    "init_yields_defaults is a differential test only (the TOML text `pyscn init` writes is parsed by the real loader, not by a model)",
                    "JSON report reader and stderr parser of harness/c17.py"]
     ck.finish(assumptions=["severities are critical / warning / info", "the clone threshold is within 0..1", "no pyscn configuration file above the work directory",
